@@ -69,7 +69,11 @@ fn run<G: Grp>(s: &mut Src, info: &mut Info, key: &mut Key, ctx: &Ctx) -> Result
     if s.choose(4) == 0 && !a.k.is_zero() && !b.k.is_zero() {
         let za = G::coords(&a.val).2;
         if za != G::B::one() {
-            b = Pt { k: b.k.clone(), rep: crate::gen::Rep::Rescaled, how: format!("rescaled to the z of A ({})", G::show_b(&za)), val: G::rescaled(&b.aff.unwrap(), &za), aff: b.aff };
+            // z_B = zeta * z_A with zeta a root of unity of order 1, 2, 3, 4 or 6 (equal z, or equal z^2 / z^3 / z^4)
+            let (zeta, zn) = G::small_root_of_unity(s.choose(6));
+            let zb = za.mul(&zeta);
+            info.class(format!("coz:zeta={}", zn));
+            b = Pt { k: b.k.clone(), rep: crate::gen::Rep::Rescaled, how: format!("rescaled to {} * (z of A) = {}", zn, G::show_b(&zb)), val: G::rescaled(&b.aff.unwrap(), &zb), aff: b.aff };
             if G::denotes(&b.val) != b.aff {
                 fail!("harness|co-z", "co-Z rescaling broke the operand");
             }
